@@ -38,6 +38,9 @@ CHECKS = {
  "C10": dict(text="Determinism.tla generates projects with many symbols per table (every vector of export kinds, typeable or not, reached through a namespace import, named imports, an export-star hop or per-export namespace access) and states the property as a history variable: the first output observed for a project must equal every later one. All generated projects and the 319 corpus programs are compiled in several fresh OS processes (fresh hash seeds) and under several file-registration orders; Trace_Determinism.tla judges the digests of the emitted code / serialized diagnostics.",
              ref="4/C10", note="Trusted: TLC; OS process creation as the source of fresh hash seeds; detection of an order-dependent site is probabilistic in the number of processes (6 quick / 12 thorough).",
              tech="TLC-enumerated projects x real process spawns x registration orders; equality judged by TLC with a history variable"),
+ "C05": dict(text="SemGen.tla generates the format-free fragment of the property (leaves, depth-1 constructors, nested compounds, recursive / mutually recursive / uninhabited named types) and the state machine over ordered pairs; SemLevel.tla defines inclusion of value sets: Sub(A, B) = every exact witness of A (over the abstraction of mentioned literals, keys and lengths plus fresh ones) is a structural member of B, with TLC-checked laws (witness soundness, reflexivity, completeness lemma against larger caps and one more unfolding). Every ordered pair is decided by the real engine through its public API (to_sem_type, is_subtype, is_same_type; child process with watchdog) and, for a seeded sample, by compiling `A extends B ? 1 : 2`; Trace_Sub.tla recomputes inclusion and compares.",
+             ref="4/C05", note="Trusted: TLC; the witness abstraction (exact for the depth-1 fragment, lemma-checked for the rest); an Err from the engine ('recursive type' for a recursive alias whose body is a union) is the engine declining, not a decision.",
+             tech="TLC-enumerated type pairs + set-theoretic reference in TLA+; engine answers validated as a trace by TLC"),
 }
 NA = []
 def main():
